@@ -3,6 +3,7 @@ package main
 import (
 	"fmt"
 	"math/big"
+	"strings"
 
 	"github.com/nspcc-dev/neo-go/pkg/crypto/keys"
 	"github.com/nspcc-dev/neo-go/pkg/io"
@@ -23,8 +24,9 @@ const (
 	kWithdraw
 	kSetGpb
 	kSetRegPrice
-	kBlock   // Policy.blockAccount(src)
-	kUnblock // Policy.unblockAccount(src)
+	kBlock     // Policy.blockAccount(src)
+	kUnblock   // Policy.unblockAccount(src)
+	kDesignate // RoleManagement.designateAsRole(P2PNotary, nodes)
 )
 
 type dataKind int
@@ -53,6 +55,7 @@ type call struct {
 	dpub   *keys.PublicKey // dPub
 	nested *call           // dCall
 	via    *util.Uint160   // the call is made by this Wallet contract (Wallet.call)
+	nodes  []*keys.PrivateKey // kDesignate
 }
 
 func (w *world) target(c *call) (util.Uint160, string, []any) {
@@ -89,6 +92,12 @@ func (w *world) target(c *call) (util.Uint160, string, []any) {
 		return w.policyH, "blockAccount", []any{c.src}
 	case kUnblock:
 		return w.policyH, "unblockAccount", []any{c.src}
+	case kDesignate:
+		nks := []any{}
+		for _, nk := range c.nodes {
+			nks = append(nks, nk.PublicKey().Bytes())
+		}
+		return w.desigH, "designateAsRole", []any{int64(32), nks}
 	}
 	panic("kind")
 }
@@ -250,6 +259,16 @@ func (w *world) opLines(c *call, caller util.Uint160, out *[]string) {
 		*out = append(*out, fmt.Sprintf("blockacc %d %s", w.aid(c.src), cl))
 	case kUnblock:
 		*out = append(*out, fmt.Sprintf("unblockacc %d %s", w.aid(c.src), cl))
+	case kDesignate:
+		var ids []string
+		for _, nk := range c.nodes {
+			ids = append(ids, fmt.Sprint(w.aid(nk.GetScriptHash())))
+		}
+		ns := "-"
+		if len(ids) > 0 {
+			ns = strings.Join(ids, ",")
+		}
+		*out = append(*out, fmt.Sprintf("designate %s %s", ns, cl))
 	}
 }
 
@@ -306,6 +325,8 @@ func (c *call) label(w *world) string {
 		return "blockAccount"
 	case kUnblock:
 		return "unblockAccount"
+	case kDesignate:
+		return "designateAsRole"
 	}
 	return "?"
 }
